@@ -1,6 +1,82 @@
-//! C11 — not built yet.
+//! C11 — every acknowledged state change is already durable.
+//!
+//! After every request of the node-level simulator (ok or refused) a second `Node` is restored from a
+//! copy of the committed store alone and compared field by field with the running node on exactly
+//! the fields the property lists (per channel: enforcement state incl. counters, commitment contents,
+//! counterparty points and secrets, closed flag; chain tip/headers/monitors; allowlist; approved
+//! invoices; channel-id high-water mark).  Explicit `restart` ops additionally continue the history
+//! on the restored node.
+use super::c10::{node_digest, node_model_line};
+use super::sim::*;
 use crate::common::*;
 
+pub struct C11Sim;
+
+impl Group for C11Sim {
+    fn property(&self) -> &'static str { "C11" }
+    fn model(&self) -> Option<&'static str> { Some("nodereq") }
+    fn rule(&self) -> &'static str {
+        "same request alphabet as C10 with more restarts; after EVERY request a shadow node is restored from a copy of the committed \
+         store and its durable view compared with the running node; non-trivial = at least three accepted state-changing requests \
+         of at least two different kinds"
+    }
+    fn budget(&self, tier: Tier) -> usize { if tier == Tier::Quick { 80 } else { 2000 } }
+    fn model_line(&self, op: &str) -> Option<String> { node_model_line(op) }
+    fn corpus(&self) -> Vec<Vec<String>> {
+        let c = |s: &str| s.split('|').map(|x| x.to_string()).collect::<Vec<_>>();
+        vec![
+            // F12: forget flag must be durable
+            c("forget 0|restart|hb"),
+            c("vh 0 g 0|rv 0|scp 0 0|cpr 0 g|scp 0 1|restart|vh 0 g 1|rv 0|sh 0|restart|rv 0"),
+            c("al add g|ks 1000|newch 4|forget 1|blk+ g|blk+ g|blk- g|restart|newch 4|al set gg"),
+        ]
+    }
+    fn gen_case(&self, rng: &mut Rng, tier: Tier) -> Vec<String> {
+        let len = rng.range(5, if tier == Tier::Quick { 12 } else { 30 }) as usize;
+        let mut ops = gen_ops(rng, len);
+        for i in 0..ops.len() {
+            if rng.chance(1, 6) { ops[i] = "restart".to_string(); }
+        }
+        ops
+    }
+    fn exec_case(&self, ops: &[String]) -> CaseOut {
+        let mut co = CaseOut::default();
+        let mut sim = Sim::new();
+        let mut kinds_changed = std::collections::BTreeSet::new();
+        let mut n_changed = 0;
+        for (i, op) in ops.iter().enumerate() {
+            let before_view = view(&sim.node(), true);
+            let (out, _pending) = exec_op(&mut sim, op);
+            let kind = op.split(' ').next().unwrap_or("");
+            co.tags.insert(format!("{}:{}", kind, out.class().split(':').next().unwrap()));
+            let mem = view(&sim.node(), true);
+            if out == Outcome::Ok && mem != before_view { kinds_changed.insert(kind.to_string()); n_changed += 1; }
+            if !matches!(out, Outcome::Panic(_)) {
+                match sim.restore_shadow() {
+                    Err(e) => co.violations.push(Violation { kind: "restore-failed".into(), desc: format!("after {}: {}", op, e), at: i }),
+                    Ok(shadow) => {
+                        let dur = view(&shadow, true);
+                        let d = diff_views(&mem, &dur);
+                        if !d.is_empty() {
+                            let which = d[0].split('.').take(2).collect::<Vec<_>>().join(".");
+                            let which = if which.starts_with("chan.") { if d[0].ends_with(".monitor") { "chan.monitor".to_string() } else { "chan.enforcement".to_string() } } else { which };
+                            co.violations.push(Violation { kind: format!("not-durable:{}:{}", kind, which), desc: format!("after {} ({}) a signer restarted from the store differs in {:?}", op, out.class(), d), at: i });
+                        }
+                    }
+                }
+            }
+            let line = if node_model_line(op).is_some() {
+                format!("{} {}", out.class().split(':').next().unwrap(), node_digest(&sim))
+            } else {
+                out.class()
+            };
+            co.out.push(line);
+        }
+        co.nontrivial = n_changed >= 3 && kinds_changed.len() >= 2;
+        co
+    }
+}
+
 pub fn groups() -> Vec<Box<dyn Group>> {
-    vec![]
+    vec![Box::new(C11Sim)]
 }
